@@ -193,7 +193,8 @@ Slot(okind, oa, ob, time, targets, kind, a, b, req, impl) ==
 SlotRegs(st, s) ==
   SelectSeq([i \in 1..Len(st.cb) |-> i],
             LAMBDA i : LET r == st.cb[i] IN
-               /\ r.ok /\ r.okind = s.okind /\ r.oa = s.oa /\ r.ob = s.ob
+               /\ r.ok
+               /\ ((r.okind = s.okind /\ r.oa = s.oa /\ r.ob = s.ob) \/ <<s.okind, s.oa, s.ob>> \in r.also)
                /\ r.time = s.time /\ r.target \in s.targets)
 
 \* expected events of a slot sequence: records [ev, slot, req, impl]
@@ -467,6 +468,25 @@ CellAtRef(st, o) ==
     [] o.kind = "hcell"   -> st.tbl[o.t].hdr[o.c]
     [] o.kind = "cellvar" -> st.cv[o.v]
 
+\* Row.Add of a by-value copy of an existing cell: the new cell starts with the
+\* source's item, text and properties (an independent map from then on) and
+\* carries the source's callback registrations as well
+RefTriple(o) ==
+  CASE o.kind = "cell" -> <<"cell", o.r, o.c>> [] o.kind = "hcell" -> <<"hcell", o.t, o.c>> [] OTHER -> <<o.kind, 0, 0>>
+
+DoRowAddCell(st, op, fired) ==
+  LET r == op.r
+      R == st.row[r]
+  IN IF R.sep THEN Raise(st, R.tbl, r, Err("LIB", "lib"))
+     ELSE LET n == Len(R.cells) + 1
+              src == RefTriple(op.from)
+              s1 == [st EXCEPT !.row[r].cells = Append(@, CellAtRef(st, op.from)),
+                               !.cb = [i \in DOMAIN st.cb |->
+                                         IF (st.cb[i].okind = src[1] /\ st.cb[i].oa = src[2] /\ st.cb[i].ob = src[3]) \/ src \in st.cb[i].also
+                                         THEN [st.cb[i] EXCEPT !.also = @ \cup {<<"cell", r, n>>}] ELSE st.cb[i]]]
+              s2 == IF R.tbl = 0 THEN s1 ELSE [s1 EXCEPT !.tbl[R.tbl] = GrowCols(@, n)]
+          IN Fire(s2, R.tbl, r, fired)
+
 \* a by-value copy of a cell: an independent owner from then on
 DoCopyCell(st, op) == [st EXCEPT !.cv = Append(@, CellAtRef(st, op.from))]
 
@@ -486,7 +506,8 @@ RegOk(op) == Supported(op.owner.kind, op.target)
 DoRegCb(st, op) ==
   LET o == OwnerTriple(op.owner) IN
   [st EXCEPT !.cb = Append(@, [ok |-> RegOk(op), okind |-> o[1], oa |-> o[2], ob |-> o[3],
-                               time |-> op.time, target |-> op.target, fails |-> op.fails = 1])]
+                               time |-> op.time, target |-> op.target, fails |-> op.fails = 1,
+                               also |-> {}])]     \* also: cells that are by-value copies of the owner cell
 
 DoRenderCbs(st, t, fired) == Fire(st, t, 0, fired)
 
@@ -508,7 +529,8 @@ SlotsOf(st, op) ==
     [] op.op = "appendrow" -> LET r == Len(st.row) + 1
                                   s1 == [st EXCEPT !.row = Append(@, NewRowRec(FALSE))]
                               IN SlotsAddRow(s1, op.t, r)
-    [] op.op = "rowadd"    -> IF st.row[op.r].sep THEN <<>> ELSE SlotsRowAdd(st, op.r, Len(st.row[op.r].cells) + 1)
+    [] op.op \in {"rowadd", "rowaddcell"}
+                           -> IF st.row[op.r].sep THEN <<>> ELSE SlotsRowAdd(st, op.r, Len(st.row[op.r].cells) + 1)
     [] op.op = "addrow"    -> SlotsAddRow(st, op.t, op.r)
     [] op.op = "rendercbs" -> SlotsRenderPass(st, op.t)
     [] OTHER -> <<>>
@@ -522,6 +544,7 @@ ApplyCore(st, op, fired) ==
     [] op.op = "appendrow" -> DoAppendRow(st, op, fired)
     [] op.op = "newrow"    -> DoNewRow(st, op)
     [] op.op = "rowadd"    -> DoRowAdd(st, op, fired)
+    [] op.op = "rowaddcell" -> DoRowAddCell(st, op, fired)
     [] op.op = "addrow"    -> DoAddRow(st, op, fired)
     [] op.op = "rowerr"    -> DoRowErr(st, op)
     [] op.op = "tblerr"    -> DoTblErr(st, op)
